@@ -16,6 +16,14 @@ func init() { register("C20", checkC20) }
 func checkC20(p *load.Program, r *kit.Report) {
 	r.NotDecided = "score sums over histories, the shuffle, concurrent histories beyond the atomicity of each method, byte-equality of a round trip."
 	r.Rule("LOCKSET", "lookup/list/lastSaved and the Score/LastTime of stored peers are accessed only under the repository lock (constructor and LoadSeeds, which runs before any thread exists, exempt)", 15)
+	r.Rule("PERSIST-UNDER-LOCK", "StoragePeerRepository writes the peers file only while it holds the repository lock that it serialised the list under: two Saves (or a Save and updates) cannot leave an older snapshot on disk after a newer one", 1)
+	checkPersistUnderLock(p, r, "PERSIST-UNDER-LOCK", R, "StoragePeerRepository", func(c ssa.CallInstruction) string {
+		cc, ok := c.(*ssa.Call)
+		if ok && cc.Call.IsInvoke() && cc.Call.Method.Name() == "Write" && cc.Call.Method.Pkg() != nil && cc.Call.Method.Pkg().Path() == load.StoragePkg {
+			return "the peers file"
+		}
+		return ""
+	}, 1)
 	r.Rule("PAIRED-UPDATE", "every append to list is followed on the same path by lookup[address] = the same peer; in Add both are behind the lookup-miss edge", 3)
 	r.Rule("SCORE-SHAPE", "UpdateScore stores Score + delta into the looked-up peer; Get keeps a peer exactly when Score >= minScore and (maxScore == -1 or Score <= maxScore)", 2)
 	r.Rule("NEW-STATE", "Get/Count answer from list/lookup and the peers' Score/LastTime only; a field added since the reference tree that they read is rewritten after every change of that data", 1)
